@@ -353,10 +353,6 @@ theorem renderRel_inj {a b : List Bytes} (ha : CompsOK a) (hb : CompsOK b) (h : 
         exact splitSlash_joinSlash hbe (fun c hc => (hb c hc).2.2)
       rw [← h1, ← h2, h]
 
-/-- `p` is `d` or lies below `d`, on normal forms: component prefix, where the root `.` (no
-    components) does not contain paths that leave it -/
-def Inside (p d : List Bytes) : Prop := d <+: p ∧ (d = [] → p.head? ≠ some dotdot)
-
 /-- a printed non-empty normal form starts with its first component, followed by `/` or the end -/
 theorem renderRel_cons {c : Bytes} {r : List Bytes} :
     renderRel (c :: r) = if r = [] then c else c ++ cSlash :: joinSlash r := by
@@ -439,51 +435,6 @@ theorem escapes_renderRel {p : List Bytes} (hp : CompsOK p) :
         rw [List.isPrefixOf_iff_prefix]
         exact ⟨joinSlash (d :: r'), by simp⟩
 
-/-- `pathWithin` (tree after the fix) on printed normal forms is component containment -/
-theorem within_iff_prefix {p d : List Bytes} (hp : CompsOK p) (hd : CompsOK d) :
-    pathWithin true (renderRel p) (renderRel d) = true ↔ Inside p d := by
-  unfold pathWithin Inside
-  by_cases hde : d = []
-  · subst hde
-    have hdot : renderRel [] = dot := rfl
-    simp only [hdot, Bool.true_and, beq_self_eq_true, if_true, List.nil_prefix, true_and, forall_const]
-    have hna := renderRel_not_abs hp
-    have hesc := escapes_renderRel hp
-    constructor
-    · intro h hh
-      have := hesc.mpr hh
-      rcases Bool.or_eq_true _ _ |>.mp h with h | h
-      · have : renderRel p = dot := by simpa using h
-        have hpe := (renderRel_eq_dot hp).mp this
-        subst hpe; simp at hh
-      · simp only [hna, Bool.not_false, Bool.true_and, Bool.and_eq_true, Bool.not_eq_true',
-          bne_iff_ne, ne_eq] at h
-        rcases Bool.or_eq_true _ _ |>.mp this with h' | h'
-        · rw [h.2] at h'; exact absurd h' (by simp)
-        · exact h.1 (by simpa using h')
-    · intro h
-      have hn : ¬ (((dotdot ++ [cSlash]).isPrefixOf (renderRel p) || renderRel p == dotdot) = true) :=
-        fun hh => h (hesc.mp hh)
-      simp only [Bool.or_eq_true, not_or, Bool.not_eq_true, beq_eq_false_iff_ne, ne_eq] at hn
-      apply Bool.or_eq_true _ _ |>.mpr
-      right
-      simp [hna, hn.1, hn.2]
-  · have hdd : renderRel d ≠ dot := fun h => hde ((renderRel_eq_dot hd).mp h)
-    have hrd : renderRel d = joinSlash d := by unfold renderRel; rw [if_neg hde]
-    simp only [hde, false_implies, and_true]
-    have hif : (true && renderRel d == dot) = false := by simp [hdd]
-    rw [hif]
-    simp only [Bool.false_eq_true, if_false, Bool.or_eq_true, beq_iff_eq, List.isPrefixOf_iff_prefix]
-    rw [hrd, prefix_slash_iff hd hp hde, ← hrd]
-    constructor
-    · rintro (h | ⟨r, _, rfl⟩)
-      · rw [renderRel_inj hp hd h]; exact List.prefix_refl _
-      · exact List.prefix_append _ _
-    · rintro ⟨r, rfl⟩
-      by_cases hr : r = []
-      · subst hr; left; simp
-      · right; exact ⟨r, hr, rfl⟩
-
 /-- `pathTriesToEscape` of a relative path, on components -/
 theorem triesToEscape_rel {p : Bytes} (h : isAbs p = false) :
     triesToEscape p = true ↔ (normComps false (splitSlash p)).head? = some dotdot := by
@@ -491,6 +442,192 @@ theorem triesToEscape_rel {p : Bytes} (h : isAbs p = false) :
   simp only
   rw [clean_rel h]
   exact escapes_renderRel (normComps_ok false _ (splitSlash_noSlash p))
+
+
+/-! ### resolving a relative path under a rooted one -/
+
+/-- what a relative normal-form stack `r` (top first) does to a rooted stack `st`: each `..` removes one entry,
+    names are pushed -/
+def embed : List Bytes → List Bytes → List Bytes
+  | [], st => st
+  | x :: r, st => if x = dotdot then (embed r st).drop 1 else x :: embed r st
+
+theorem dotdot_not_mem_embed {st : List Bytes} (hst : dotdot ∉ st) : ∀ r, dotdot ∉ embed r st := by
+  intro r
+  induction r with
+  | nil => exact hst
+  | cons x r ih =>
+    simp only [embed]
+    split
+    · intro h; exact ih (List.mem_of_mem_drop h)
+    · rename_i hx
+      intro h
+      rcases List.mem_cons.mp h with h | h
+      · exact hx h.symm
+      · exact ih h
+
+theorem step_true_dotdot {E : List Bytes} (h : dotdot ∉ E) : step true E dotdot = E.drop 1 := by
+  unfold step
+  have h1 : dotdot ≠ [] := by decide
+  have h2 : dotdot ≠ dot := by decide
+  simp only [h1, h2, if_false, if_true]
+  cases E with
+  | nil => rfl
+  | cons top rest =>
+    have : top ≠ dotdot := fun he => h (he ▸ List.mem_cons_self)
+    simp [this]
+
+theorem step_embed {st : List Bytes} (hst : dotdot ∉ st) (r : List Bytes) (c : Bytes) :
+    step true (embed r st) c = embed (step false r c) st := by
+  by_cases hc1 : c = []
+  · subst hc1; simp [step]
+  by_cases hc2 : c = dot
+  · subst hc2; simp [step]
+  by_cases hc3 : c = dotdot
+  · subst hc3
+    rw [step_true_dotdot (dotdot_not_mem_embed hst r)]
+    unfold step
+    have h1 : dotdot ≠ [] := by decide
+    have h2 : dotdot ≠ dot := by decide
+    simp only [h1, h2, if_false, if_true]
+    cases r with
+    | nil => simp [embed]
+    | cons top rest =>
+      simp only [Bool.false_eq_true, if_false]
+      by_cases ht : top = dotdot
+      · simp [ht, embed]
+      · simp [ht, embed]
+  · have : step false r c = c :: r := by simp [step, hc1, hc2, hc3]
+    rw [this]
+    simp [step, hc1, hc2, hc3, embed]
+
+theorem foldl_step_embed {st : List Bytes} (hst : dotdot ∉ st) : ∀ (cs r : List Bytes),
+    cs.foldl (step true) (embed r st) = embed (cs.foldl (step false) r) st := by
+  intro cs
+  induction cs with
+  | nil => intro r; rfl
+  | cons c cs ih =>
+    intro r
+    simp only [List.foldl_cons]
+    rw [step_embed hst, ih]
+
+theorem dotdot_not_mem_step_true {st : List Bytes} {c : Bytes} (h : dotdot ∉ st) : dotdot ∉ step true st c := by
+  by_cases hc : c = dotdot
+  · subst hc
+    rw [step_true_dotdot h]
+    intro hm; exact h (List.mem_of_mem_drop hm)
+  · unfold step
+    split
+    · exact h
+    · split
+      · exact h
+      · intro hm
+        rcases List.mem_cons.mp hm with hm | hm
+        · exact hc hm.symm
+        · exact h hm
+
+theorem dotdot_not_mem_foldl_true : ∀ (cs st : List Bytes), dotdot ∉ st → dotdot ∉ cs.foldl (step true) st := by
+  intro cs
+  induction cs with
+  | nil => intro st h; exact h
+  | cons c cs ih => intro st h; exact ih _ (dotdot_not_mem_step_true h)
+
+/-- under a rooted prefix, only the relative normal form of the rest matters -/
+theorem normComps_true_append_congr (A X Y : List Bytes) (h : normComps false X = normComps false Y) :
+    normComps true (A ++ X) = normComps true (A ++ Y) := by
+  have hf : X.foldl (step false) [] = Y.foldl (step false) [] := by
+    have := congrArg List.reverse h
+    simpa [normComps] using this
+  have hW := dotdot_not_mem_foldl_true A [] (by simp)
+  unfold normComps
+  simp only [List.foldl_append]
+  have e1 := foldl_step_embed hW X []
+  have e2 := foldl_step_embed hW Y []
+  simp only [embed] at e1 e2
+  rw [e1, e2, hf]
+
+/-! ### absolute paths -/
+
+/-- how a rooted normal form is printed -/
+def renderAbs (cs : List Bytes) : Bytes := cSlash :: joinSlash cs
+
+theorem clean_abs {p : Bytes} (h : isAbs p = true) : clean p = renderAbs (normComps true (splitSlash p)) := by
+  simp [clean, h, renderAbs]
+
+theorem joinSlash_inj {a b : List Bytes} (ha : CompsOK a) (hb : CompsOK b) (h : joinSlash a = joinSlash b) : a = b := by
+  by_cases hae : a = []
+  · subst hae
+    by_cases hbe : b = []
+    · exact hbe.symm
+    · exact absurd h.symm (joinSlash_ne_nil hb hbe)
+  · by_cases hbe : b = []
+    · subst hbe; exact absurd h (joinSlash_ne_nil ha hae)
+    · rw [← splitSlash_joinSlash hae (fun c hc => (ha c hc).2.2), ← splitSlash_joinSlash hbe (fun c hc => (hb c hc).2.2), h]
+
+theorem renderAbs_inj {a b : List Bytes} (ha : CompsOK a) (hb : CompsOK b) (h : renderAbs a = renderAbs b) : a = b :=
+  joinSlash_inj ha hb (List.cons.inj h).2
+
+/-- `pathWithin` on printed rooted normal forms is the prefix relation on components -/
+theorem within_abs_iff {p d : List Bytes} (hp : CompsOK p) (hd : CompsOK d) :
+    pathWithin true true (renderAbs p) (renderAbs d) = true ↔ d <+: p := by
+  unfold pathWithin
+  have hnd : (renderAbs d == dot) = false := by simp [renderAbs, dot, cSlash]
+  simp only [hnd, Bool.and_false, Bool.false_eq_true, if_false, Bool.true_and]
+  by_cases hde : d = []
+  · subst hde
+    have : (renderAbs [] == [cSlash]) = true := by simp [renderAbs, joinSlash]
+    simp [this, renderAbs, joinSlash]
+  · have hne : (renderAbs d == [cSlash]) = false := by
+      have := joinSlash_ne_nil hd hde
+      simp [renderAbs, this]
+    simp only [hne, Bool.false_eq_true, if_false, Bool.or_eq_true, beq_iff_eq, List.isPrefixOf_iff_prefix]
+    by_cases hpe : p = []
+    · subst hpe
+      constructor
+      · rintro (h | h)
+        · exact absurd (renderAbs_inj hp hd h).symm hde
+        · obtain ⟨t, ht⟩ := h
+          have := congrArg List.length ht
+          have hl : 0 < (joinSlash d).length := List.length_pos_iff.mpr (joinSlash_ne_nil hd hde)
+          simp [renderAbs, joinSlash] at this
+      · intro h
+        exact absurd (List.prefix_nil.mp h) hde
+    · have hrp : renderRel p = joinSlash p := by unfold renderRel; rw [if_neg hpe]
+      have hpre : (renderAbs d ++ [cSlash]) <+: renderAbs p ↔ (joinSlash d ++ [cSlash]) <+: renderRel p := by
+        rw [hrp]
+        simp [renderAbs, List.cons_prefix_cons]
+      rw [hpre, prefix_slash_iff hd hp hde]
+      constructor
+      · rintro (h | ⟨r, _, rfl⟩)
+        · rw [renderAbs_inj hp hd h]; exact List.prefix_refl _
+        · exact List.prefix_append _ _
+      · rintro ⟨r, rfl⟩
+        by_cases hr : r = []
+        · subst hr; left; simp
+        · right; exact ⟨r, hr, rfl⟩
+
+/-- `resolvedOutputPath` on components: the output resolved from an absolute workspace root -/
+theorem resolvedOutputPath_abs {ws pkg ident : Bytes} (hws : isAbs ws = true) (hp : isAbs pkg = false)
+    (hi : isAbs ident = false) :
+    resolvedOutputPath ws pkg ident =
+      renderAbs (normComps true (splitSlash ws ++ (splitSlash pkg ++ splitSlash ident))) := by
+  obtain ⟨t, rfl⟩ := isAbs_iff.mp hws
+  unfold resolvedOutputPath
+  rw [cleanOutputPath_rel hp hi]
+  have hok := normComps_ok false (splitSlash pkg ++ splitSlash ident) (by
+    intro c hc
+    rcases List.mem_append.mp hc with hc | hc <;> exact splitSlash_noSlash _ c hc)
+  have hst := normComps_stack false (splitSlash pkg ++ splitSlash ident) (by
+    intro c hc
+    rcases List.mem_append.mp hc with hc | hc <;> exact splitSlash_noSlash _ c hc)
+  generalize hnf : normComps false (splitSlash pkg ++ splitSlash ident) = nf at hok hst
+  have hj : join [cSlash :: t, renderRel nf] = clean ((cSlash :: t) ++ cSlash :: renderRel nf) := by
+    simp [join, List.dropWhile, joinSlash]
+  have habs : isAbs ((cSlash :: t) ++ cSlash :: renderRel nf) = true := by simp [isAbs]
+  rw [hj, clean_abs habs, splitSlash_append]
+  congr 1
+  apply normComps_true_append_congr
+  rw [splitSlash_renderRel hok, normComps_fixed false nf hst, ← hnf]
 
 /-! ### the workspace test -/
 
